@@ -24,7 +24,9 @@ EXPLANATION = (
     "called once per match occurrence (not once per distinct symbol through a dict) and the composition table accumulates (shared "
     "with C04.R6); R6 renaming is consistent: where a replacement table is applied, the count is recorded under the replaced symbol, "
     "the same that is written into the new name; R7 `is_atom` is exactly: one element, one atom, neutral, not the electron, not on a "
-    "surface (decided by truth table, whatever the arrangement of guard clauses).")
+    "surface (decided by truth table, whatever the arrangement of guard clauses); R8 no process-wide table (memo of parsed names, cached "
+    "symbol list) stands between a name and its decomposition (shared with C17.R3); R9 the symbol tables consulted are the configured ones, "
+    "the defaults only when nothing at all is configured (shared with C01.R6).")
 ASSUMPTIONS = [
     "the composition a given name decodes to, the pairing of a count with the symbol before it, mass numbers (data tables), the gas-phase counterpart and the behaviour of "
     "`re` on a given alphabet are NOT decided: this check decides necessary structural conditions of the tokenizer, not its results",
@@ -58,6 +60,13 @@ def check(ctx):
     from .c04 import _r6 as table_accumulates
     ctx.absorb(table_accumulates, "R5", only=lambda o: o.outcome != "MISSING")
     _r7(ctx, pkg)
+    # R8 the decomposition is a function of the name and the configured tables: no table shared by all Species (a memo of parsed
+    # names, a cached symbol list) stands between them (shared with C17.R3 process-wide state discovery)
+    from .c17 import discovered_state
+    ctx.absorb(lambda sub: discovered_state(sub, package(sub.tree), "R8"), "R8", only=lambda o: o.outcome != "MISSING")
+    # R9 the symbol tables consulted are the configured ones: the defaults stand in only when NOTHING was configured (shared with C01.R6)
+    from .c01 import _r6 as pseudo_rule
+    ctx.absorb(pseudo_rule, "R9", only=lambda o: ("known_pseudoelements" in o.key or "pseudo-filter" in o.key) and o.outcome != "MISSING")
 
 
 # ------------------------------------------------------------------ R1 / R2
